@@ -221,6 +221,7 @@ func runC05(w *W) {
 		w.World.GCNum, w.World.GCDen, w.World.GCBudget = 1, pickInt(t, "knob.gcden", 16, 64, 256), 3
 	}
 	w.World.PoolFreshPct = pickInt(t, "knob.poolfresh", 20, 0, 100)
+	w.World.HashSeed = t.Draw(1<<32, "knob.hashseed") // which keys collide is an environment decision
 	so := tgenOpts{MaxStructs: 1 + t.Intn(3, "sch.structs"), MaxFields: 2 + t.Intn(8, "sch.fields"), MaxDepth: 1 + t.Intn(3, "sch.depth"),
 		BigIDs: t.Chance(1, 2, "sch.bigids"), ManyFields: t.Chance(1, 6, "sch.wide"), Recursive: t.Chance(1, 4, "sch.rec")}
 	sch := genSchema(t, so)
